@@ -7,6 +7,7 @@ import FhVerif.Model.TimeoutSem
 import FhVerif.Model.BodyStream
 import FhVerif.Model.ReqConf
 import FhVerif.Model.Hijack
+import FhVerif.Model.BodyOps
 namespace Fh.Driver
 open Fh Fh.Spec.Rfc
 
@@ -56,6 +57,19 @@ def opsConn (op : String) (a : List Bytes) : Option String :=
     let obs := observed.filterMap fun c => match Char.ofNat c.toNat with
       | 'N' => some Fh.Model.CS.new | 'A' => some .active | 'I' => some .idle | 'C' => some .closed | 'H' => some .hijacked | _ => none
     some s!"{String.ofList ((Fh.Model.states it).map letter)} {Fh.Model.accepts obs}"
+  | "bodyops", ops => do
+    -- a response body built in steps; each arg is a letter followed by its text:
+    -- b SetBody, a/w Append/Write, r SetBodyRaw, R SetBodyRaw(nil), x ResetBody, s SetBodyStream.  Reply: the body sent
+    let os ← ops.mapM fun (o : Bytes) => match o with
+      | 98 :: t => some (Fh.Model.BodyOps.Op.set t)
+      | 97 :: t => some (.app t)
+      | 119 :: t => some (.app t)
+      | 114 :: t => some (.raw t)
+      | [82] => some .rawNil
+      | [120] => some .reset
+      | 115 :: t => some (.stream t)
+      | _ => none
+    some (hex (Fh.Model.BodyOps.sent (Fh.Model.BodyOps.run Fh.Model.BodyOps.init os)))
   | "rskeep", cl :: pre :: acts => do
     -- streamed fixed-length body: Content-Length, prefetched bytes, then what the handler did:
     -- f<N> = io.ReadFull of N bytes, a = read to EOF, d = drop the stream (ResetBody / SetBody / Body())
